@@ -392,7 +392,26 @@ long verif_enumerate(int shard, int nshards, int tier, verif::EnumReport &r) {
                     if (!run(f, lists[l], false)) return r.evaluations;
             }
     }
+    // (3) one long specifier: '{' + 18..250 bytes of legal flag characters (alignment / sign / prefix flags, pad pairs with control and high
+    // pad bytes, class letters, blanks) ending in an offending byte, in a NUL (unterminated) or in '}' - whatever the parser says about it
+    // must not depend on how long the specifier is
+    {
+        static const size_t LEN[] = {18, 40, 62, 63, 64, 65, 86, 87, 88, 89, 100, 126, 127, 128, 129, 130, 200, 250};
+        static const char *const RUN[] = {"<>+#", "_\x01_\xFF_\x7F_*", "x Xd ob", "<_\x80+ #_\x02", "+", "_."};
+        static const char *const END[] = {"\x01", "\x7F", "\x80", "\xFF", "q", "{", "", "}", "\x1B}", "\xC3\xA9}"};
+        int idx = 0;
+        for (size_t L : LEN) for (const char *fr : RUN) for (const char *end : END) {
+            if (idx++ % nshards != shard) continue;
+            std::string f = "ab{"; const size_t rl = strlen(fr);
+            for (size_t i = 0; i < L; i++) f += fr[i % rl];
+            f += end; f += "cd";
+            if (f.size() > 255) continue;
+            for (size_t l = 0; l < lists.size(); l += 4)
+                if (!run(f, lists[l], false)) return r.evaluations;
+        }
+    }
     if (shard == 0) {
+        r.exhausted.push_back("one specifier of 18..250 flag bytes (six kinds of flag runs incl. pad pairs with control / high pad bytes) x ten endings (offending control / DEL / high byte, letter, '{', NUL, '}') x 3 argument lists");
         r.exhausted.push_back("every prefix of the 221 distinct format strings of test/test_format.cpp x 10 argument lists (over all shards)");
         r.exhausted.push_back("24 hand-written format strings covering every production: cut at every position, every single byte deleted, every dictionary token (48) inserted at / substituted for every position, x 10 argument lists");
     }
